@@ -11,6 +11,7 @@ ap.add_argument("--tests", default="")
 ap.add_argument("--demo-cmd", default=None)
 ap.add_argument("--skip-demo", action="store_true")
 ap.add_argument("--tier", default="quick")
+ap.add_argument("--prebuild", default=None, help="command run in the worktree after applying the patch (and again after reverting it), e.g. to rebuild pavexc")
 ap.add_argument("--also", default="", help="other properties whose checks should be run against the mutant too (comma separated)")
 a = ap.parse_args()
 wt = "/tmp/mut-%s" % a.tag
@@ -33,6 +34,9 @@ if not a.skip_demo:
 rc, out = sh("git -C %s apply %s" % (wt, patch))
 assert rc == 0, "patch does not apply to worktree: " + out
 try:
+    if a.prebuild:
+        rcb, outb = sh(a.prebuild, cwd=wt)
+        assert rcb == 0, "prebuild failed with the patch: " + outb[-2000:]
     if not a.skip_demo:
         rc1, out1 = sh(demo_cmd, cwd=demo_dir)
         res["confirmed_by_lead"]["demo_with_patch"] = {"rc": rc1, "tail": out1[-900:]}
@@ -41,6 +45,8 @@ try:
         res["confirmed_by_lead"]["tests_with_patch"] = {"cmd": "cargo test --offline --no-fail-fast " + a.tests, "summary": outt[-1500:]}
 finally:
     sh("git -C %s checkout -- ." % wt)
+    if a.prebuild:
+        sh(a.prebuild, cwd=wt)
 # --- our checks against the mutant, in /repo
 rc, out = sh("git -C /repo apply --check %s" % patch)
 assert rc == 0, "patch does not apply to /repo: " + out
